@@ -94,3 +94,27 @@ Theorem C06_pages_disjoint : forall s now ssid from until start limit m,
   In m (lookup s now ssid from until start limit) -> lex_ltb start (m_id m) = true.
 Proof. exact continuation_pages_disjoint. Qed.
 Print Assumptions C06_pages_disjoint.
+
+From Emitter Require Import Model.Murmur Model.Channel Model.Cipher Model.Key Model.Broker Proofs.BrokerHistory.
+
+(* at the request level (service/history): an emitter/history/ request is answered with exactly the
+   store's answer (C06_lookup_* above) for the contract of the key inside the channel text, the
+   channel's query, its from/until window and its 'last' option (1 when absent), without a
+   continuation id; 400 for an unparsable channel, 401 without the load permission.  The broker
+   harness sends such requests between publishes with ttl / retain and compares the answers. *)
+Theorem C06_history_request_is_the_query : forall (I : Type) (X : ixops I) e (b : @broker I) i c ch mid channel,
+  c_query ch = [h_history] ->
+  let hc := parse_channel channel in
+  on_emitter X e b i c ch mid (EHistory channel) =
+  if c_type hc =? ChannelInvalid then emit b i (PHistory mid 400 [])
+  else match auth e hc AllowLoad with
+       | None => emit b i (PHistory mid 401 [])
+       | Some k =>
+         let limit := match get_option s_last (c_opts hc) with Some v => Z.to_N v | None => 1 end in
+         emit b i (PHistory mid 200
+                     (map (fun m => (m_chan m, m_payload m))
+                          (query (b_store b) (e_now e) (key_contract k :: c_query hc)
+                                 (fst (chan_window hc)) (snd (chan_window hc)) [] limit)))
+       end.
+Proof. intros I X. exact (history_request_is_the_query X). Qed.
+Print Assumptions C06_history_request_is_the_query.
